@@ -25,15 +25,12 @@ import (
 
 	"verif/harness/dbwrap"
 	"verif/harness/lnmodel"
+	"verif/harness/rt"
 )
 
 // Scratch returns a fresh scratch directory on tmpfs (removed by the caller / at process exit).
 func Scratch(tag string) string {
-	base := "/dev/shm"
-	if st, err := os.Stat(base); err != nil || !st.IsDir() {
-		base = os.TempDir()
-	}
-	d, err := os.MkdirTemp(base, "verif-"+tag+"-")
+	d, err := os.MkdirTemp(rt.ScratchRoot(), tag+"-")
 	if err != nil {
 		panic(err)
 	}
